@@ -37,7 +37,7 @@ def errs(ubi, gv):
     return t0 * t0 + t1 * t1 + t2 * t2
 
 
-def model_final(E, tol, init):
+def model_final(E, tol, init, exact=False):
     """E: (ngrains, npeaks) squared errors; returns (labels index into grain list or -1, best error, ambiguous mask)"""
     ng, n = E.shape
     ok = (E < tol * tol) & (E < init)
@@ -52,8 +52,9 @@ def model_final(E, tol, init):
         second = srt[1]
         with np.errstate(invalid="ignore"):
             amb |= np.isfinite(best) & (np.abs(second - best) <= 1e-12 * np.maximum(best, 1e-300) + 1e-18)
-    near = np.abs(E - tol * tol) <= 1e-12
-    amb |= near.any(axis=0) if ng else False
+    if not exact:    # in exact (dyadic) arithmetic "error == tol^2" is a well defined input: not within the tolerance
+        near = np.abs(E - tol * tol) <= 1e-12
+        amb |= near.any(axis=0) if ng else False
     return lab, np.where(np.isfinite(best), best, init), amb
 
 
@@ -154,7 +155,7 @@ class C07(object):
                 "labels_base": rnd.choice([0, 0, 1, 10]),
                 # what the label buffer holds on entry: -1 everywhere, or zeros as several callers in the repository start
                 # (with labels numbered from 0 every peak then carries grain 0's label without being indexed by it)
-                "init_label": rnd.choice([-1, -1, 0])}
+                "init_label": rnd.choice([-1, -1, 0]), "fight_tol_at_construction": rnd.random() < 0.4}
         if route == "assign":
             # peaks on the detector; each grain gets a translation; UBIs are rebuilt from three of its own g-vectors
             desc["sc"] = g.uniform(0, 2048, n).tolist()
@@ -183,12 +184,23 @@ class C07(object):
                 desc["grain_names"] = rnd.sample(range(0, 3 * ngr + 4), ngr)
             # the grains move between two assignments (refinement, set_ubi), as in the makemap sequence
             # refine -> save -> assign again: the second assignment must use the grains as they are then
+            desc["via_refinepositions"] = rnd.choice([0, 0, 0, 1, 3]) if (ngr and n >= 3) else 0
             if rnd.random() < 0.5:
                 desc["assign_history"] = {"kind": rnd.choice(["perturbed", "perturbed", "other"]), "seed": rnd.getrandbits(32),
                                           "how": rnd.choice(["set_ubi", "set_ubi", "new_grain"])}
         else:
             gv = make_peaks(rnd, g, ubis, n)
-            if n and rnd.random() < 0.15:
+            if n and route != "assign" and rnd.random() < 0.1:
+                # exact arithmetic: UBI = 4 x signed permutations, g on a 1/32 grid, dyadic tolerance: errors that EQUAL tol^2
+                # (or zero tolerance with ideal peaks) are decided by the documented strict comparison
+                ubis = []
+                for _ in range(ngr):
+                    ubis.append(np.ascontiguousarray(4.0 * np.eye(3)[list(g.permutation(3))] * g.choice([-1.0, 1.0], 3)[:, None]))
+                desc["ubis"] = [u.tolist() for u in ubis]
+                gv = (g.integers(-6, 7, (n, 3)) + g.integers(-3, 4, (n, 3)) / 8.0) / 4.0
+                desc["tol"] = rnd.choice([0.0, 1 / 8.0, 1 / 4.0, 3 / 8.0, 1 / 2.0])
+                desc["dyadic"] = True
+            if n and not desc.get("dyadic") and rnd.random() < 0.15:
                 # peaks without a usable g-vector (failed spatial correction: NaN; division by zero: inf): no grain indexes them
                 for _ in range(rnd.randint(1, 4)):
                     gv[rnd.randrange(n), rnd.randrange(3) if rnd.random() < 0.7 else slice(None)] = rnd.choice([float("nan"), float("inf"), float("-inf")])
@@ -225,7 +237,7 @@ class C07(object):
         cfg = desc["cfg"]
         n = E.shape[1]
         if viol is None:
-            mlab, mbest, amb = model_final(E, tol, init)
+            mlab, mbest, amb = model_final(E, tol, init, exact=bool(desc.get("dyadic")))
             bad = (lab_idx != mlab) & ~amb
             if bad.any():
                 k = int(np.argmax(bad))
@@ -315,7 +327,8 @@ class C07(object):
         sim.begin_run()
         viol = None
         with contextlib.redirect_stdout(io.StringIO()):
-            ix = indexing.indexer(gv=gv, hkl_tol=tol)
+            # the tolerance is set by plain attribute assignment after construction, as the library's own drivers do
+            ix = indexing.indexer(gv=gv, hkl_tol=(tol if desc.get("fight_tol_at_construction", True) else 0.777))
             try:
                 for pre in desc.get("fight_pre", []):
                     ix.ubis = [ubis[gi] for gi in pre["order"]]
@@ -389,6 +402,7 @@ class C07(object):
         enginea.apply_cfg(sim, cfg, strict=0, track_conflicts=0, pct_est=max(50, 60 * n // max(1, cfg["team"])),
                           step_cap=2000000000)
         sim.begin_run()
+        refine_failed = False
         with contextlib.redirect_stdout(io.StringIO()):
             rg = refinegrains.refinegrains(tolerance=tol, OmFloat=False)
             for kk, vv in pars.items():
@@ -415,7 +429,17 @@ class C07(object):
                 rg.ubisread[names[j]] = np.ascontiguousarray(u0)
                 rg.translationsread[names[j]] = trans[gi]
             rg.generate_grains()
-            rg.assignlabels(quiet=True)
+            if desc.get("via_refinepositions") and not ah:
+                # the makemap story: positions are refined right after loading; the competing assignment this starts with is
+                # done with the user's tolerance, and its labels and errors are what the columns hold afterwards
+                try:
+                    rg.refinepositions(quiet=True, maxiters=desc["via_refinepositions"])
+                except Exception:
+                    # the simplex / least-squares refinement that follows the assignment may fail on these tiny synthetic
+                    # grains (that is not this property's business); the assignment it started with is in the columns
+                    refine_failed = True
+            else:
+                rg.assignlabels(quiet=True)
             if ah:
                 for j, gi in enumerate(order):
                     if ah["how"] == "set_ubi":
@@ -451,6 +475,7 @@ class C07(object):
         meas["route"] = {"assign": 1}
         meas["assignments_after_the_grains_moved"] = 1 if desc.get("assign_history") else 0
         meas["grain_names_not_0..n-1"] = 1 if desc.get("grain_names") else 0
+        meas["assignment_via_refinepositions"] = 1 if (desc.get("via_refinepositions") and not desc.get("assign_history")) else 0
         contested = int((((E < tol * tol) & (E < 1.0)).sum(axis=0) >= 2).sum()) if E.size else 0
         meas["contested_peaks"] = contested
         meas["peaks_beyond_one_chunk"] = 1 if n > 4096 else 0
